@@ -48,6 +48,14 @@ fn corrupt_structured(r: &Replay, rng: &mut Rng, kind: u64) -> (Vec<u8>, String)
             let d = [100usize, 126, 127, 128, 200, 3000, 20000][(rng.next() % 7) as usize]; let mut m = vec![]; for _ in 0..d { m.extend(b"U\x01a{"); } if rng.next() % 2 == 0 { for _ in 0..d { m.push(b'}'); } } r.metadata = Some(m); "deep-metadata" }
         13 => { r.end = Some(rng.nbytes(8)); "odd-game-end" }
         14 => { let n = r.start_block.len(); r.start_block.truncate((rng.next() as usize) % n.max(1)); sizes[0].1 = r.start_block.len() as u16; "short-start-block" }
+        16 => { // a known event code declared with a boundary size (below / at / above every fixed offset its handler uses); its events resized to match
+            let code = [0x10u8, 0x3D, 0x37, 0x38, 0x3A, 0x3B, 0x3C, 0x10, 0x10][(rng.next() % 9) as usize];
+            let size: u16 = if code == 0x10 { [1u16, 2, 3, 4, 5, 100, 511, 512, 513, 514, 515, 517, 520, 1028, 65535][(rng.next() % 15) as usize] } else { [1u16, 2, 3, 4, 5, 6, 7, 8][(rng.next() % 8) as usize] };
+            if let Some(e) = sizes.iter_mut().find(|s| s.0 == code) { e.1 = size; } else { sizes.push((code, size)); }
+            let mut any = false;
+            for e in body.iter_mut() { if e[0] == code { any = true; e.resize(1 + size as usize, 0x5a); } }
+            if !any { let i = pick(rng, body.len() + 1); let mut e = vec![code]; e.extend(rng.bytes(size as usize)); if size >= 4 && rng.next() % 2 == 0 { let id = id_at(&body, i, &r); e[1..5].copy_from_slice(&id.to_be_bytes()); } body.insert(i, e); }
+            "boundary-size-for-known-code" }
         _ => { if let Some(f) = r.frames.first_mut() { f.id = [i32::MAX, i32::MIN, -124, 0][(rng.next() % 4) as usize]; } body = body_events(&r, &pad); "extreme-first-id" }
     };
     let mut out = assemble(&r, &sizes, &body, &junk, &pad);
@@ -87,8 +95,8 @@ fn incremental(b: &[u8]) -> Result<String, String> {
 fn mal(rng: &mut Rng, ctx: &mut Ctx) {
     let go = GenOpts { max_frames: 5, newer: false, force: None };
     for k in 0..ctx.n {
-        // structured corruptions walk the 16 kinds; events illegal for the version get every framing regime in turn
-        let kind = if k % 4 == 1 { 6 } else { rng.next() % 16 };
+        // structured corruptions walk the 17 kinds; events illegal for the version get every framing regime in turn
+        let kind = if k % 4 == 1 { 6 } else if k % 8 == 3 { 16 } else { rng.next() % 17 };
         let go = if kind == 6 { GenOpts { max_frames: 4, newer: false, force: Some([(1u8,0u8,0u8),(2,1,0),(2,2,0),(2,255,3),(3,0,0),(3,6,0),(0,1,0),(2,5,0)][(k / 4) % 8]) } } else { GenOpts { max_frames: 5, newer: false, force: None } };
         let (r, tags) = gen_replay(rng, k, &go);
         let (b, kind) = if k % 3 == 0 && kind != 6 { let b = encode(&r); corrupt_bytes(&b, rng) } else { corrupt_structured(&r, rng, kind) };
@@ -152,14 +160,15 @@ fn pprefix(rng: &mut Rng, ctx: &mut Ctx) {
         let mut r = r; if k % 4 == 3 { r.frames.clear(); }
         let b = encode(&r); let comp = comps[k % 3];
         let a = match std::panic::catch_unwind(|| to_slpp(&b, comp, true)) { Ok(Ok(a)) => a, _ => { let mut c = Case::new(format!("pprefix {}", hex(&b)), "unwritable".into()); c.fail("C02", "well-formed replay could not be written as .slpp"); ctx.push(c); continue; } };
-        let full = match peppi::io::peppi::read(Cursor::new(&a), None) { Ok(g) => game_sig(&g), Err(e) => { let mut c = Case::new(format!("pprefix {}", hex(&b)), "unreadable".into()); c.fail("C02", format!("written .slpp unreadable: {}", e)); ctx.push(c); continue; } };
+        let skipf = (k / 3) % 2 == 1; // every other archive is walked with the skip-frames option
+        let full = match peppi::io::peppi::read(Cursor::new(&a), Some(&peppi::io::peppi::de::Opts { skip_frames: skipf })) { Ok(g) => game_sig(&g), Err(e) => { let mut c = Case::new(format!("pprefix {}", hex(&b)), "unreadable".into()); c.fail("C02", format!("written .slpp unreadable: {}", e)); ctx.push(c); continue; } };
         let mut bad = vec![]; let mut complete_from = a.len(); let mut hung = None;
         let seed = ctx.seed as usize; let thorough = ctx.thorough;
         let cuts: Vec<usize> = (0..a.len()).filter(|n| thorough || n % 512 < 16 || n % 512 >= 504 || matches!(n % 8, 0 | 1 | 7) || (n + seed) % 13 == 0).collect();
         // one worker thread walks the cuts; the parent watches the clock so that a reader that blocks is observed, not waited for
         let (tx, rx) = std::sync::mpsc::channel();
         { let a = a.clone(); let cuts = cuts.clone(); std::thread::Builder::new().stack_size(8 << 20).spawn(move || { for n in cuts {
-            let res = std::panic::catch_unwind(|| peppi::io::peppi::read(Cursor::new(&a[..n]), None).map(|g| game_sig(&g)).map_err(|_| ()));
+            let res = std::panic::catch_unwind(|| peppi::io::peppi::read(Cursor::new(&a[..n]), Some(&peppi::io::peppi::de::Opts { skip_frames: skipf })).map(|g| game_sig(&g)).map_err(|_| ()));
             if tx.send((n, res)).is_err() { break; } } }).unwrap(); }
         let mut expect = cuts.iter();
         loop {
@@ -169,10 +178,10 @@ fn pprefix(rng: &mut Rng, ctx: &mut Ctx) {
                 Ok((n, Err(_))) => bad.push((n, "panic")), Ok((n, Ok(Err(_)))) => { if complete_from != a.len() { bad.push((n, "error after a shorter prefix was complete")); } }
                 Ok((n, Ok(Ok(sig)))) => { if sig != full { bad.push((n, "partial game")); } else if complete_from == a.len() { complete_from = n; } } }
         }
-        let mut c = Case::new(format!("pprefix {} {}", k % 3, hex(&b)), format!("len={} complete_from={} bad={:?} hung={:?}", a.len(), complete_from, &bad[..bad.len().min(4)], hung));
+        let mut c = Case::new(format!("pprefix {} {}", k % 3, hex(&b)), format!("len={} skip={} complete_from={} bad={:?} hung={:?}", a.len(), skipf, complete_from, &bad[..bad.len().min(4)], hung));
         if let Some(n) = hung { c.fail("C07", format!(".slpp truncated to {} of {} bytes: reader did not return within 20 s", n, a.len())); }
         for (n, what) in bad.iter().take(3) { c.fail("C07", format!(".slpp truncated to {} of {} bytes: {}", n, a.len(), what)); }
-        c.tags = tags; c.tags.push(format!("comp{}", k % 3)); c.tags.push(format!("cuts{}", cuts.len()));
+        c.tags = tags; c.tags.push(format!("comp{}", k % 3)); c.tags.push(format!("cuts{}", cuts.len())); c.tags.push(format!("pskip{}", skipf as u8));
         ctx.push(c);
         if hung.is_some() { return; } // the worker thread is stuck; stop here
     }
@@ -550,7 +559,8 @@ fn pread(rng: &mut Rng, ctx: &mut Ctx) {
         let (r, tags) = loop { let kk = k + (rng.next() % 3) as usize * 1000; let (r, t) = gen_replay(rng, kk, &go); if !slots_of(&r.start_block).is_empty() { break (r, t); } };
         let b = encode(&r);
         let a = match std::panic::catch_unwind(|| to_slpp(&b, None, k % 2 == 0)) { Ok(Ok(a)) => a, _ => continue };
-        let full = match peppi::io::peppi::read(Cursor::new(&a), None) { Ok(g) => game_sig(&g), Err(_) => continue };
+        let skipf = (k / 3) % 2 == 1; // every other archive is walked with the skip-frames option
+        let full = match peppi::io::peppi::read(Cursor::new(&a), Some(&peppi::io::peppi::de::Opts { skip_frames: skipf })) { Ok(g) => game_sig(&g), Err(_) => continue };
         let es = tar_entries(&a);
         let mut c = Case::new(format!("pread {} {}", k, es.len()), String::new()); c.tags = tags;
         if k % 2 == 0 {
